@@ -524,13 +524,15 @@ ACTIONS = ("Simulate", "Assess", "Generate", "Update", "Regenerate", "Project", 
 # rough relative cost of a history (rejection samplers / special functions are slow to compile): heavy first
 
 def run(prop_id, tier, seed, replay=None):
-    rep = vlib.Report(prop_id, tier, seed)
-    wd = vlib.workdir(prop_id)
     names = sorted(TABLE)
-    if replay:
+    if replay:      # read before the work directory (which may contain the replay file) is recreated
         with open(replay) as f:
             r = json.load(f)
         names = [r["signature"]["dist"]]
+        seed = int(r.get("seed", seed))
+        tier = r.get("tier", tier)
+    rep = vlib.Report(prop_id, tier, seed)
+    wd = vlib.workdir(prop_id)
     only = os.environ.get("VERIF_C24_ONLY")      # development aid: restrict to some wrappers (comma separated)
     if only:
         names = [n for n in names if n in only.split(",")]
